@@ -31,6 +31,7 @@ type fnInfo struct {
 	inRepo   bool
 	monitor  bool // memory allocated by this function is watched by the race monitor
 	atomic   bool // library function executed as one atomic step (reduction a)
+	opaque   bool // method of a library type the environment models stand in for, without a model of its own
 }
 
 func (p *Prog) info(fn *ssa.Function) *fnInfo {
@@ -79,8 +80,33 @@ func (p *Prog) info(fn *ssa.Function) *fnInfo {
 			fi.monitor = false // harness code
 		}
 	}
+	if fi.intr == nil && fi.redirect == nil && fn.Signature.Recv() != nil {
+		fi.opaque = opaqueRecv(fn.Signature.Recv().Type())
+	}
 	p.infos[fn] = fi
 	return fi
+}
+
+// opaqueRecv: the library types whose values are mere tokens in the environment models (an
+// *os.File, a Badger handle, a YAML decoder are zero structs used as map keys). Running their real
+// methods on such a token would dereference nil inside the library and look like a panic of the
+// program; a method without a model is therefore reported as unsupported (inconclusive).
+func opaqueRecv(t types.Type) bool {
+	if pt, ok := t.(*types.Pointer); ok {
+		t = pt.Elem()
+	}
+	nt, ok := t.(*types.Named)
+	if !ok || nt.Obj().Pkg() == nil {
+		return false
+	}
+	switch nt.Obj().Pkg().Path() + "." + nt.Obj().Name() {
+	case "os.File",
+		"github.com/dgraph-io/badger/v3.DB", "github.com/dgraph-io/badger/v3.Txn",
+		"github.com/dgraph-io/badger/v3.Iterator", "github.com/dgraph-io/badger/v3.Item",
+		"gopkg.in/yaml.v2.Decoder":
+		return true
+	}
+	return false
 }
 
 // funcName: stable name used by the intrinsic and redirect tables; instantiations map to their origin.
@@ -209,6 +235,7 @@ type Machine struct {
 	crashOn     bool
 	mutations   int
 	raceOn      bool
+	spawnFork   bool
 	env         map[string]Value
 	harness     string
 	nontrivial  bool
@@ -571,6 +598,9 @@ func (m *Machine) pushFrame(th *Thread, fn *ssa.Function, binds []Value, args []
 	fi := m.p.info(fn)
 	if len(fn.Blocks) == 0 {
 		m.unsupported("no body: " + fi.name)
+	}
+	if fi.opaque {
+		m.unsupported("no environment model for " + fi.name)
 	}
 	if len(th.frames) > 400 {
 		m.unsupported("stack depth")
